@@ -5,6 +5,7 @@
 -/
 import Shm.Model.Machine
 import Shm.Lemmas.StepInv
+import Shm.Model.Wrap
 namespace Shm.C07
 open Shm
 
@@ -265,5 +266,126 @@ theorem C07_reauth (s : State) (h : Nat) (ss : Sess) (hs : s.handles.getSess h =
   · intro hop hm; simp [stepUpdateLike, hs, hop, hm, hre]
   · intro hop hm; simp [stepFinalLike, hs, hop, hm, hre]
   · intro hop hsym hsg; simp [stepCrypt, hs, hop, hsym, hsg, hre]
+
+/-! ### wrap / unwrap / derive: ONLY-IF — a call that succeeds had the flag, the mechanism was allowed for the key and configured -/
+
+theorem wrapParamErr_ne_ok (mech : Nat) (p : MParam) (oRv e : RV) (h : wrapParamErr mech p oRv = some e) : e ≠ CKR.OK := by
+  unfold wrapParamErr at h
+  repeat' (split at h)
+  all_goals (simp only [Option.some.injEq, reduceCtorEq] at h)
+  all_goals (subst h)
+  all_goals (first | decide | skip)
+  rename_i hc
+  intro he
+  rw [he] at hc
+  exact absurd hc (by decide)
+
+/-- a guard that refuses with a constant code other than CKR_OK: a successful call did not take it -/
+theorem ite_refuse {c : Prop} [Decidable c] (s : State) (e : RV) (x : State × Resp) (he : e ≠ CKR.OK)
+    (h : (if c then rOnly s e else x).2.rv = CKR.OK) : ¬c ∧ x.2.rv = CKR.OK := by
+  by_cases hc : c
+  · rw [if_pos hc] at h; exact absurd h he
+  · rw [if_neg hc] at h; exact ⟨hc, h⟩
+
+/-- a guard that passes an access-check code through when it is not CKR_OK -/
+theorem ite_refuse_acc (s : State) (a : RV) (x : State × Resp)
+    (h : (if (a != CKR.OK) = true then rOnly s a else x).2.rv = CKR.OK) : a = CKR.OK ∧ x.2.rv = CKR.OK := by
+  by_cases hc : (a != CKR.OK) = true
+  · rw [if_pos hc] at h
+    have : a = CKR.OK := h
+    rw [this] at hc; exact absurd hc (by decide)
+  · rw [if_neg hc] at h; exact ⟨by simpa using hc, h⟩
+
+/-- **C_WrapKey succeeds only if** the wrapping key has CKA_WRAP, the mechanism is permitted for it (CKA_ALLOWED_MECHANISMS and slots.mechanisms), the key to be wrapped
+    is CKA_EXTRACTABLE, and a CKA_WRAP_WITH_TRUSTED key is wrapped under a CKA_TRUSTED key only -/
+theorem C07_wrap_only_if (s : State) (h mech : Nat) (p : MParam) (wkH keyH : Nat) (cap : Option Nat) (oRv : RV) (oLen : Nat) (oData : Option Bytes)
+    (hok : (stepWrap s h mech p wkH keyH cap oRv oLen oData).2.rv = CKR.OK) :
+    ∃ e1 wk e2 key, resolveObj s wkH = some (e1, wk) ∧ resolveObj s keyH = some (e2, key) ∧
+      getBoolD wk.attrs CKA.WRAP false = true ∧ mechPermitted s.mechCfg wk.attrs mech = true ∧
+      getBoolD key.attrs CKA.EXTRACTABLE false = true ∧
+      (getBoolD key.attrs 0x210 false = true → getBoolD wk.attrs CKA.TRUSTED false = true) := by
+  unfold stepWrap at hok
+  split at hok
+  · simp only [rOnly] at hok; exact absurd hok (by decide)
+  split at hok
+  · rename_i e he; exact absurd hok (wrapParamErr_ne_ok _ _ _ _ he)
+  split at hok
+  · simp only [rOnly] at hok; exact absurd hok (by decide)
+  split at hok
+  · simp only [rOnly] at hok; exact absurd hok (by decide)
+  rename_i e1 wk hwk
+  extract_lets st acc wcls rsaMech at hok
+  obtain ⟨_, hok⟩ := ite_refuse_acc _ _ _ hok
+  obtain ⟨_, hok⟩ := ite_refuse _ _ _ (by decide) hok
+  obtain ⟨_, hok⟩ := ite_refuse _ _ _ (by decide) hok
+  obtain ⟨_, hok⟩ := ite_refuse _ _ _ (by decide) hok
+  obtain ⟨_, hok⟩ := ite_refuse _ _ _ (by decide) hok
+  obtain ⟨hwrap, hok⟩ := ite_refuse _ _ _ (by decide) hok
+  obtain ⟨hperm, hok⟩ := ite_refuse _ _ _ (by decide) hok
+  split at hok
+  · simp only [rOnly] at hok; exact absurd hok (by decide)
+  rename_i e2 key hkey
+  extract_lets acc2 at hok
+  obtain ⟨_, hok⟩ := ite_refuse_acc _ _ _ hok
+  obtain ⟨hextr, hok⟩ := ite_refuse _ _ _ (by decide) hok
+  obtain ⟨htrust, hok⟩ := ite_refuse _ _ _ (by decide) hok
+  refine ⟨e1, wk, e2, key, hwk, hkey, ?_, ?_, ?_, ?_⟩
+  · simpa using hwrap
+  · simpa using hperm
+  · simpa using hextr
+  · intro hw; simpa [hw] using htrust
+
+theorem unwrapParamErr_ne_ok (mech : Nat) (p : MParam) (n : Nat) (oRv e : RV) (h : unwrapParamErr mech p n oRv = some e) : e ≠ CKR.OK := by
+  unfold unwrapParamErr at h
+  repeat' (split at h)
+  all_goals (simp only [Option.some.injEq, reduceCtorEq] at h)
+  all_goals (subst h)
+  all_goals (first | decide | skip)
+  all_goals (rename_i hc; intro he; rw [he] at hc; exact absurd hc (by decide))
+
+/-- **C_UnwrapKey succeeds only if** the unwrapping key has CKA_UNWRAP and the mechanism is permitted for it -/
+theorem C07_unwrap_only_if (s : State) (h mech : Nat) (p : MParam) (ukH : Nat) (blob : Option Bytes) (tpl : Template) (oRv : RV)
+    (hok : (stepUnwrap s h mech p ukH blob tpl oRv).2.rv = CKR.OK) :
+    ∃ e1 uk, resolveObj s ukH = some (e1, uk) ∧ getBoolD uk.attrs CKA.UNWRAP false = true ∧ mechPermitted s.mechCfg uk.attrs mech = true := by
+  unfold stepUnwrap at hok
+  split at hok
+  · simp only [rOnly] at hok; exact absurd hok (by decide)
+  split at hok
+  · simp only [rOnly] at hok; exact absurd hok (by decide)
+  split at hok
+  · rename_i e he; exact absurd hok (unwrapParamErr_ne_ok _ _ _ _ _ he)
+  split at hok
+  · simp only [rOnly] at hok; exact absurd hok (by decide)
+  split at hok
+  · simp only [rOnly] at hok; exact absurd hok (by decide)
+  rename_i e1 uk huk
+  extract_lets st acc ucls ukt rsaMech at hok
+  obtain ⟨_, hok⟩ := ite_refuse_acc _ _ _ hok
+  obtain ⟨_, hok⟩ := ite_refuse _ _ _ (by decide) hok
+  obtain ⟨_, hok⟩ := ite_refuse _ _ _ (by decide) hok
+  obtain ⟨_, hok⟩ := ite_refuse _ _ _ (by decide) hok
+  obtain ⟨hunwrap, hok⟩ := ite_refuse _ _ _ (by decide) hok
+  obtain ⟨hperm, hok⟩ := ite_refuse _ _ _ (by decide) hok
+  exact ⟨e1, uk, huk, by simpa using hunwrap, by simpa using hperm⟩
+
+/-- **C_DeriveKey succeeds only if** the base key has CKA_DERIVE, the mechanism is a derivation mechanism and is permitted for the key -/
+theorem C07_derive_only_if (s : State) (h mech : Nat) (p : MParam) (bkH : Nat) (tpl : Template) (oRv : RV)
+    (hok : (stepDerive s h mech p bkH tpl oRv).2.rv = CKR.OK) :
+    ∃ e1 bk, resolveObj s bkH = some (e1, bk) ∧ getBoolD bk.attrs CKA.DERIVE false = true ∧ mechPermitted s.mechCfg bk.attrs mech = true ∧
+      deriveMechs.contains mech = true := by
+  unfold stepDerive at hok
+  split at hok
+  · simp only [rOnly] at hok; exact absurd hok (by decide)
+  obtain ⟨hmech, hok⟩ := ite_refuse _ _ _ (by decide) hok
+  split at hok
+  · simp only [rOnly] at hok; exact absurd hok (by decide)
+  split at hok
+  · simp only [rOnly] at hok; exact absurd hok (by decide)
+  rename_i e1 bk hbk
+  extract_lets st acc at hok
+  obtain ⟨_, hok⟩ := ite_refuse_acc _ _ _ hok
+  obtain ⟨hder, hok⟩ := ite_refuse _ _ _ (by decide) hok
+  obtain ⟨hperm, hok⟩ := ite_refuse _ _ _ (by decide) hok
+  exact ⟨e1, bk, hbk, by simpa using hder, by simpa using hperm, by simpa using hmech⟩
 
 end Shm.C07
